@@ -168,3 +168,6 @@ pub(crate) fn maddr(m: &RawMachine) -> usize {
 pub(crate) fn ir(m: &RawMachine) -> u8 {
     m.instruction_register.get_raw()
 }
+pub(crate) fn no_pending_register_write(m: &RawMachine) -> bool {
+    m.pending_register_write.is_none()
+}
